@@ -13,6 +13,7 @@ import (
 )
 
 type CSVFormatter struct {
+	out    io.Writer
 	writer *csv.Writer
 	fields []physical.SchemaField
 }
@@ -21,6 +22,7 @@ func NewCSVFormatter(w io.Writer) *CSVFormatter {
 	writer := csv.NewWriter(w)
 
 	return &CSVFormatter{
+		out:    w,
 		writer: writer,
 	}
 }
@@ -42,6 +44,15 @@ func (t *CSVFormatter) Write(values []octosql.Value) error {
 		FormatCSVValue(&builder, values[i])
 		row[i] = builder.String()
 		builder.Reset()
+	}
+	if len(row) == 1 && row[0] == "" {
+		// A record of one empty field would be written as an empty line, which csv readers skip.
+		t.writer.Flush()
+		if err := t.writer.Error(); err != nil {
+			return err
+		}
+		_, err := io.WriteString(t.out, "\"\"\n")
+		return err
 	}
 	return t.writer.Write(row)
 }
